@@ -3,7 +3,7 @@
 import sys, os, shutil, json, re
 P, src = sys.argv[1], sys.argv[2]
 LET = sys.argv[3:5] if len(sys.argv) >= 5 else ["C", "D"]
-RND = {"C": 2, "E": 3}.get(LET[0], 2)
+RND = {"C": 2, "E": 3, "G": 4, "I": 5}.get(LET[0], 2)
 for X, Y in (("A", LET[0]), ("B", LET[1])):
     if not os.path.exists(f"{src}/patch_{X}.diff"):
         continue
